@@ -623,7 +623,7 @@ theorem parseCotp_closed (want : CotpClass) (bs : Bytes) (h7 : 7 ≤ bs.length) 
       else if decNat .network ((bs.drop 1).take 1) >>> 4 != want.typeCode then .error .invalidType
       else if decNat .network (bs.take 1) < 6 then .error .invalidValue
       else if decNat .network ((bs.drop 6).take 1) != 0 then .error .invalidValue
-      else .ok (⟨.request, decNat .network ((bs.drop 2).take 2), decNat .network ((bs.drop 4).take 2),
+      else .ok (⟨want, decNat .network ((bs.drop 2).take 2), decNat .network ((bs.drop 4).take 2),
                   decNat .network ((bs.drop 6).take 1), (bs.drop 7).take (decNat .network (bs.take 1) - 6)⟩,
                 decNat .network (bs.take 1) + 1) := by
   unfold parseCotp
@@ -684,7 +684,7 @@ theorem composeCotp_swapped (c : Cotp) (h : cotpWf c) : composeCotp c = .ok (enc
 theorem parseCotp_encode (x : X224Connection) (want : CotpClass) (s : Bytes) (hk : want.kind = x.kind)
     (h : x.wf) :
     parseCotp want (encodeX224 x ++ s) =
-      .ok (⟨.request, x.dstRef, x.srcRef, 0, x.data⟩, (encodeX224 x).length) := by
+      .ok (⟨want, x.dstRef, x.srcRef, 0, x.data⟩, (encodeX224 x).length) := by
   obtain ⟨hd, hs, hl⟩ := h
   unfold encodeX224 parseCotp
   simp only [← encNat_big, List.append_assoc]
@@ -761,9 +761,28 @@ theorem cotp_noCrash (want : CotpClass) : NoCrash ⟨parseCotp want, composeCotp
         · simp at hh
         · split at hh <;> simp at hh
 
-/-- whatever class the parser is called on, the object it returns is a `COTPConnectionRequest` -/
+/-- a PDU of the other class is refused with `InvalidType` -/
+theorem parseCotp_other (x : X224Connection) (want : CotpClass) (s : Bytes) (hk : want.kind ≠ x.kind)
+    (h : x.wf) : parseCotp want (encodeX224 x ++ s) = .error .invalidType := by
+  obtain ⟨hd, hs, hl⟩ := h
+  unfold encodeX224 parseCotp
+  simp only [← encNat_big, List.append_assoc]
+  have hc : x.kind.code < 256 ^ 1 := by cases x.kind <;> decide
+  have p1 := parseNum_enc (bo := .network) (k := 1) (v := 6 + x.data.length) rfl (by simp; omega)
+  have p2 := parseNum_enc (bo := .network) (k := 1) (v := x.kind.code) rfl hc
+  have hlen : ¬ (encNat .network 1 (6 + x.data.length) ++ (encNat .network 1 x.kind.code ++ (encNat .network 2 x.dstRef ++
+      (encNat .network 2 x.srcRef ++ (encNat .network 1 0 ++ (x.data ++ s)))))).length < COTPConnectionBase_HEADER_SIZE := by
+    simp [COTPConnectionBase_HEADER_SIZE]; omega
+  rw [if_neg hlen, p1]
+  simp only [bind, Except.bind, drop_enc, List.length_append, encNat_length]
+  rw [if_neg (by omega), p2]
+  have htc : (x.kind.code >>> 4 != want.typeCode) = true := by
+    cases want <;> cases hx : x.kind <;> simp [hx, CotpClass.kind] at hk <;> decide
+  simp only [htc, if_true]
+
+/-- the class of the object the parser returns is the class it was called on -/
 theorem parseCotp_tag (want : CotpClass) (bs : Bytes) (c : Cotp) (n : Nat) (h : parseCotp want bs = .ok (c, n)) :
-    c.cls = .request := by
+    c.cls = want := by
   by_cases h7 : bs.length < 7
   · unfold parseCotp at h; simp [COTPConnectionBase_HEADER_SIZE, h7] at h
   · rw [parseCotp_closed want bs (by omega)] at h
@@ -1616,10 +1635,34 @@ theorem findNul_append (v s : Bytes) (h : (0 : UInt8) ∉ v) : findNul (v ++ 0 :
     have hxs : (0 : UInt8) ∉ xs := fun e => h (by simp [e])
     simp [findNul, hx, ih hxs]
 
+theorem composeStrNul_ok (v : Bytes) (ha : isAscii v = true) (h0 : (0 : UInt8) ∉ v) :
+    composeStrNul v = .ok (v ++ [0]) := by
+  simp [composeStrNul, ha, h0]
+
+/-- what the composer accepts is ASCII without NUL, and the output is the text and a terminator -/
+theorem composeStrNul_ok_inv {v b : Bytes} (h : composeStrNul v = .ok b) :
+    isAscii v = true ∧ (0 : UInt8) ∉ v ∧ b = v ++ [0] := by
+  unfold composeStrNul at h
+  split at h
+  · simp at h
+  · next ha =>
+    split at h
+    · simp at h
+    · next hc =>
+      simp only [Except.ok.injEq] at h
+      exact ⟨by simpa using ha, by simpa using hc, h.symm⟩
+
+/-- an embedded NUL is rejected -/
+theorem composeStrNul_nul (v : Bytes) (h0 : (0 : UInt8) ∈ v) : composeStrNul v = .error .invalidValue := by
+  unfold composeStrNul
+  split
+  · rfl
+  · simp [h0]
+
 /-- an ASCII text without NUL composes to itself and a terminator, and parses back (with any suffix) -/
 theorem strNul_roundtrip (v s : Bytes) (ha : isAscii v = true) (h0 : (0 : UInt8) ∉ v) :
     composeStrNul v = .ok (v ++ [0]) ∧ parseStrNul (v ++ [0] ++ s) = .ok (v, v.length + 1) := by
-  refine ⟨by simp [composeStrNul, ha], ?_⟩
+  refine ⟨composeStrNul_ok v ha h0, ?_⟩
   unfold parseStrNul
   rw [List.append_assoc, show ([0] : Bytes) ++ s = 0 :: s from rfl, findNul_append v s h0]
   simp only [List.take_left' rfl, ha, if_true]
@@ -1699,12 +1742,12 @@ theorem composeMySqlHandshakeV10_enc (h : MySqlHandshakeV10) (hw : mySqlV10Wf h)
     flagWord_mod, flagWord_div]
   rw [composeNum_ok rfl (version_lt pv hpv), composeNum_ok rfl (by simpa using hcid), composeNum_ok rfl hlo,
     composeNum_ok rfl hhi, composeNum_ok rfl hsw, composeCharset_ok .little cs hcs]
-  simp only [composeStrNul, hsa, if_true, bind, Except.bind]
+  simp only [composeStrNul_ok sv hsa hs0, bind, Except.bind]
   by_cases h19 : 19 ∈ sel
   · rw [if_pos h19] at hopt
     obtain ⟨d2, nm, hd2, hd2l, hnm, hna, hn0⟩ := hopt
     subst hd2; subst hnm
-    simp only [h19, decide_true, if_true, data2Bytes, hna]
+    simp only [h19, decide_true, if_true, data2Bytes, composeStrNul_ok nm hna hn0]
     rw [composeNum_ok rfl (by simp; omega)]
     simp [pure, Except.pure]
   · rw [if_neg h19] at hopt
